@@ -796,33 +796,19 @@ def is_d10(case, sig):
     return M["style"] == "sync" and M["out"] == {"raise": 8}
 
 
-def d10_known(pid):
-    return any(k["property"] == pid and k["status"] == "known" and k["signature"] == D10_SIG for k in C.load_known())
-
-
 class Failer:
-    """routes oracle failures to the report; failures inside the D10 region carry the signature flag, and as long
-    as the proposed known-findings entry is not merged they are listed as PENDING instead of failing the check"""
+    """routes oracle failures to the report; failures inside the D10 region carry the signature flag `d10`
+    (predicate of the known finding sync_generator_exit: task style == sync and the body raises GeneratorExit)"""
 
     def __init__(self, rep, pid, case):
         self.rep, self.pid, self.case = rep, pid, case
-        self.known = d10_known(pid)
 
     def __call__(self, what, sig, evs):
-        d10 = is_d10(self.case, sig)
-        if d10 and not self.known:
-            self.rep.extra.setdefault("pending_findings", {}).setdefault(D10_SIG, 0)
-            self.rep.extra["pending_findings"][D10_SIG] += 1
-            return
         self.rep.fail("%s: %s" % (self.pid, what), self.case, observed=evs, expected="see the property statement",
-                      sig=dict(sig, d10=d10))
+                      sig=dict(sig, d10=is_d10(self.case, sig)))
 
 
 def finish(rep, pid):
-    pend = rep.extra.get("pending_findings", {})
-    if pend.get(D10_SIG):
-        print("PENDING-FINDING: property=%s %s (reproduced %d times; proposed entry: notes/proposed_known_findings.json)"
-              % (pid, D10_WHAT, pend[D10_SIG]))
     return rep.finish({D10_SIG: lambda f: bool(f["sig"].get("d10"))}, {})
 
 
